@@ -13,7 +13,22 @@ ARGS = ["p0", "p1", "p2", "h0", "nope", "P0", "0", "1", "-1", "5", "999999999999
         "-9223372036854775808", "9223372036854775807", "", " ", "..", "p0..p2", "p2..p0", "p1..", "..p1", "@", "~",
         "^", "{base}", "{base}+1", "@~5", "p0~1", "p0+9", "abc123", "deadbeef", "é", "\U0001f63c", "a b", "a/b",
         "x.lock", ".hidden", "-", "--", "\\-x", "HEAD", "HEAD~1", "refs/stacks/main", "refs/stacks/main~1", "main",
-        "other", "no/such/branch", "f0.txt", "nofile.txt", "@{", "p0..p1..p2", "~0", "^-1", "+", "+0"]
+        "other", "no/such/branch", "f0.txt", "nofile.txt", "@{", "p0..p1..p2", "~0", "^-1", "+", "+0",
+        "orphan", "orphan-tag", "HEAD^{tree}", "HEAD:f0.txt", "HEAD~100", "annotated"]
+
+# revisions of every kind for the deterministic probes: an unrelated root commit, a tree, a
+# blob, an annotated tag, a missing ancestor, a state ref, garbage
+REVS = ["orphan", "HEAD^{tree}", "HEAD:f0.txt", "annotated", "HEAD~100", "refs/stacks/main", "refs/stacks/main~1",
+        "no/such", "", "{base}", "p0", "p0~1", "h0", "HEAD", "main", "other", "0000000000000000000000000000000000000000"]
+
+REV_PROBES = [["uncommit", "--to", "REV"], ["rebase", "REV"], ["rebase", "--nopush", "REV"], ["reset", "REV"],
+              ["reset", "--hard", "REV"], ["pick", "REV"], ["pick", "--fold", "REV"], ["pick", "--unapplied", "REV"],
+              ["id", "REV"], ["show", "REV"], ["diff", "-r", "REV"], ["diff", "-r", "REV..REV"], ["files", "REV"],
+              ["name", "REV"], ["edit", "--set-tree", "REV", "-m", "x"], ["push", "--set-tree", "p2"],
+              ["new", "-m", "n", "--sign-by", "REV"], ["branch", "--create", "nb", "REV"], ["log", "REV"],
+              ["series", "--missing", "REV"], ["sync", "-B", "REV", "p0"], ["pick", "-B", "REV", "p0"],
+              ["refresh", "--set-tree", "REV"], ["fold", "--base", "REV", "nofile.txt"], ["sink", "--to", "REV"],
+              ["uncommit", "-n", "1", "--to", "REV"], ["commit", "REV"], ["squash", "-m", "s", "REV", "p0"]]
 
 
 def commands(stg):
@@ -47,6 +62,13 @@ def make_state(r, stg, state):
     r.write("f0.txt", "base\n")
     r.git(["add", "-A"])
     r.git(["commit", "-q", "-m", "f0"])
+    # an unrelated root commit (as from an orphan docs branch or a fetched foreign history)
+    # and an annotated tag: present in every state
+    tree = r.git(["hash-object", "-t", "tree", "-w", "/dev/null"]).stdout.strip()
+    oc = r.git(["commit-tree", tree, "-m", "unrelated root"]).stdout.strip()
+    r.git(["branch", "orphan", oc])
+    r.git(["tag", "orphan-tag", oc])
+    r.git(["tag", "-a", "-m", "annotated tag", "annotated", "HEAD"])
     if state == "uninit":
         return
     r.stg(stg, ["init"])
@@ -147,3 +169,37 @@ def run(stg, rng, n, per_state=40, tag="fz"):
                 if p.returncode in (0, 3) or bad:
                     history.append(argv)      # commands that may have changed the repository
     return total, failures, dist
+
+
+QUICK_REVS = ["orphan", "HEAD^{tree}", "HEAD:f0.txt", "annotated", "HEAD~100", "refs/stacks/main~1", "no/such", ""]
+
+
+def run_rev_probes(stg, states=("stack", "moved", "empty"), revs=None, tag="fzr"):
+    """every revision-taking command line x every kind of revision; the repository is rebuilt
+    whenever a probe may have changed it"""
+    failures = []
+    total = 0
+    for state in states:
+        r = None
+        try:
+            for probe in REV_PROBES:
+                for rev in (revs or REVS):
+                    argv = [a.replace("REV", rev) for a in probe]
+                    if r is None:
+                        r = repo.Scratch(tag)
+                        r.__enter__()
+                        make_state(r, stg, state)
+                    p = r.stg(stg, argv, timeout=20, env={"STGIT_VERIF_DIR": ""})
+                    total += 1
+                    bad = classify(p)
+                    if bad:
+                        failures.append({"state": state, "history": [], "argv": argv, "kind": bad, "exit": p.returncode,
+                                         "site": panic_site(p.stderr) if bad == "panic" else None,
+                                         "stderr": p.stderr[-400:]})
+                    if p.returncode in (0, 3) or bad:
+                        r.__exit__(None, None, None)
+                        r = None
+        finally:
+            if r is not None:
+                r.__exit__(None, None, None)
+    return total, failures
